@@ -160,6 +160,10 @@ func (p *FloatingIPPlugin) allocateIP(key string, nodeName string, pod *corev1.P
 		}
 	}
 	for _, ipInfo := range ipInfos {
+		if ipInfo == nil {
+			// e.g. a configuration reload dropped the ip in between
+			return nil, fmt.Errorf("an ip allocated to %s is no longer allocated", key)
+		}
 		if p.cloudProvider != nil && reservedIPs.Has(ipInfo.IP.String()) && ipInfo.NodeName != "" &&
 			ipInfo.NodeName != nodeName {
 			// a former bind of this pod to another node failed half way, the ip may still be assigned there
